@@ -50,3 +50,10 @@ CHECKS["C10"] = dict(
     design_ref="DESIGN.md 3 C10",
     note="SQL text is not interpreted in the recorder conditions (only bound values); commit/reopen identity is outside; histories are a bounded exhaustive case split driven by forks.",
 )
+CHECKS["C17"] = dict(
+    engine="E1 CrossHair on the real code + SQLite",
+    technique="CrossHair-driven exhaustive case split over bounded inclusion graphs, executing the real analyze_templates on a real SQLite store against an independent least-fixpoint closure",
+    text="For every inclusion graph on 2 templates (each edge absent / exact / written with a lower-case initial), every classifier flag set and every placement of one redirect page (target, dangling, flagged or not, included or not), the marked set equals the closure plus the redirect rule and the analysis terminates; thorough adds 3-template graphs. The solver enumerates a finite space here - labelled as the weakest use of the technique.",
+    design_ref="DESIGN.md 3 C17",
+    note="Bounded (n<=2 quick, n<=3 thorough); redirect propagation modelled as one step after the closure; several redirects / chains outside.",
+)
